@@ -510,10 +510,11 @@ def contracts():
     for t in (0, 2):
         cs += [IndexLookup(t), MaskedLookup(t), ReorderedLookup(t), UniformDerivedLookup(t), DerivedLookup(t)]
     cs += [ChainedLookup(0), ChainedLookup(2), IndexLookupNegative(), IndexLookupForeign(), MaskedForeign(), AxisInverse('unmap-after-map'), AxisInverse('map-after-unmap')]
-    from contracts import c11_chain, c11_swap, c11_struct
+    from contracts import c11_chain, c11_swap, c11_struct, c11_plain
     cs += c11_chain.contracts()
     cs += c11_swap.contracts()
     cs += c11_struct.contracts()
+    cs += c11_plain.contracts()
     return cs
 
 
